@@ -1,11 +1,12 @@
 CONSTANTS RepointRoles <- AllRoles
  MaxEdits = 4
  MaxEditsFile = 4
- InsertFront = TRUE
+ Wide = TRUE
  NewNames <- NamesThorough
  OpKinds <- AllOpKinds
  ProgIds <- AllProgs
  SimMode = TRUE
+ LoopVarByName = FALSE
 INIT Init
 NEXT Next
 INVARIANT InvAll
